@@ -32,7 +32,8 @@ Inductive oerr :=
 | ECodec                   (* the content is not in the compression format its name announces *)
 | EHandler                 (* the handler cannot write this object / read this content *)
 | ESame                    (* copy of a file onto itself (shutil.SameFileError) *)
-| EPeriod.                 (* find(): end - 1us < start (ValueError) *)
+| EPeriod                  (* find(): end - 1us < start (ValueError) *)
+| EConvert.                (* move(convert=f): the user's function raises for this object *)
 Inductive res (A : Type) := Good (a : A) | Bad (e : oerr).
 Arguments Good {A} a. Arguments Bad {A} e.
 Definition rbind {A B} (r : res A) (f : A -> res B) : res B :=
@@ -255,6 +256,72 @@ Definition move_hyp (F G : fset) (sl : sel) (d : disk) : bool :=
 Definition op_hyp_g (o : op) (d : disk) : bool :=
   match o with OMove F G _ _ sl => move_hyp F G sl d | _ => true end.
 
+(* ------------------------------------------------------------------ a move whose conversion fails for some files
+   move(target, convert=f): the user's function may raise for an object (f x = None), and the handler of the target
+   may be unable to store what it is handed (enc = None).  The worker of such a file raises after the file was read and
+   before anything is written; _move_single_file removes the original only AFTER destination.write has returned, so
+   a file that did not arrive at its target is still at its source. *)
+Definition recodep (F G : fset) (f : Data -> option Data) (p q : str) (b : Bytes) : res Bytes :=
+  rbind (decode F p b) (fun x =>
+    match f x with
+    | None => Bad EConvert
+    | Some y => match encode G y q with Some c => Good c | None => Bad EHandler end
+    end).
+
+(* _move_single_file with a conversion that may fail (move1 is the case of a conversion that never does) *)
+Definition move1p (F G : fset) (copy : bool) (conv : option (Data -> option Data)) (d : disk) (en : entry) : res disk :=
+  match target G en with
+  | Error e => Bad (EName e)
+  | Ok q =>
+      let p := e_path en in
+      match dlook p d with
+      | None => Bad ENoFile
+      | Some b =>
+          match conv with
+          | Some f => rbind (recodep F G f p q b) (fun c =>
+                        let d' := dstore q c d in Good (if copy then d' else dremove p d'))
+          | None => if str_eqb p q then (if copy then Bad ESame else Good d)
+                    else let d' := dstore q b d in Good (if copy then d' else dremove p d')
+          end
+      end
+  end.
+
+(* The workers of FileSet.map treat the selected files in parallel.  When one of them raises, move() raises, and which
+   of the OTHER files have been treated by then is not determined by the property (the executor has finished those that
+   come before the failing one in the order of find(); later ones may have run, be running -- they are waited for --
+   or have been cancelled).  `done` = the files whose worker ran to its end, in the order they did. *)
+Definition move_part (F G : fset) (copy : bool) (conv : option (Data -> option Data)) (done : list entry) (d : disk) : res disk :=
+  foldM (move1p F G copy conv) done d.
+
+(* workers one after the other (max_workers = 1): the disk when the first failing file is met, and its error *)
+Fixpoint foldP {A} (f : disk -> A -> res disk) (l : list A) (d : disk) : disk * option oerr :=
+  match l with
+  | [] => (d, None)
+  | x :: l' => match f d x with Good d' => foldP f l' d' | Bad e => (d, Some e) end
+  end.
+Definition movep (F G : fset) (copy : bool) (conv : option (Data -> option Data)) (sl : sel) (d : disk) : res (disk * option oerr) :=
+  rbind (find F sl d) (fun es => Good (foldP (move1p F G copy conv) es d)).
+
+(* the selected files whose conversion fails on the disk d *)
+Definition failsb (F G : fset) (conv : option (Data -> option Data)) (d : disk) (en : entry) : bool :=
+  match target G en, dlook (e_path en) d, conv with
+  | Ok q, Some b, Some f => match recodep F G f (e_path en) q b with Good _ => false | Bad _ => true end
+  | _, _, _ => false
+  end.
+(* the selected files that are present under their target name on the disk d' *)
+Definition arrivedb (G : fset) (d' : disk) (en : entry) : bool :=
+  match target G en with
+  | Ok q => match dlook q d' with Some _ => true | None => false end
+  | Error _ => false
+  end.
+(* what the property prescribes for the tree after a move, given the tree d' that is observed afterwards: the files
+   that arrived are moved, every other file is where it was (move_given_sound) *)
+Definition move_given (F G : fset) (copy : bool) (conv : option (Data -> option Data)) (sl : sel) (d d' : disk) : res disk :=
+  rbind (find F sl d) (fun es => move_part F G copy conv (filter (arrivedb G d') es) d).
+(* the hypotheses of move_failure_conserves as a boolean: those of move_conserves, and every selected file exists *)
+Definition movep_hyp (F G : fset) (sl : sel) (d : disk) : bool :=
+  move_hyp F G sl d && forallb (fun en => negb (fresh d (e_path en))) (entries F sl d).
+
 (* ------------------------------------------------------------------ the period a written file is found under
    F[s:e, fill] = x, then find(): what the property promises for each way of spelling the end (C02):
      no end fields        -> (s, s + time_coverage) resp. (s, s)
@@ -408,3 +475,27 @@ Definition run_call (O : t_fobj) (c : ocall Z) (d : list (string * list Z))
 Definition run_wif (F : t_fset) (s e : Z) (fill : attrs) : bool * bool * option Z * string :=
   (wif_hyp F s e fill, wif_exact F s e, wif_period F s e,
    match render (tpl F) s e (fill_of fill) with Ok p => l2s p | Error _ => EmptyString end).
+
+(* a move whose conversion fails on the toy instance: a convert function that raises for ONE payload (and adds k to every
+   other), a target handler that cannot store ONE payload (it raises before it opens the file) *)
+Definition t_convp (k : Z) (bad : option Z) : Z -> option Z :=
+  fun x => match bad with Some v => if x =? v then None else Some (x + k) | None => Some (x + k) end.
+Definition t_encp (bad : option Z) (h w x : Z) : option (list Z) :=
+  match bad with Some v => if x =? v then None else t_enc h w x | None => t_enc h w x end.
+(* (sequential workers: the tree when every file could be converted, else the first error;
+    what the property prescribes given the observed tree `after`;
+    the selected files whose conversion fails;  the hypotheses of move_failure_conserves) *)
+Definition run_movep (wbad : option Z) (F G : t_fset) (copy : bool) (conv : option (Z -> option Z)) (sl : sel)
+                     (d after : list (string * list Z)) : tres * tres * list string * bool :=
+  (match movep Z (list Z) (t_encp wbad) t_dec t_pack t_unpack F G copy conv sl (in_disk d) with
+   | Good (d', None) => TGood (out_disk d') TNone
+   | Good (_, Some e) => TBad e
+   | Bad e => TBad e
+   end,
+   match move_given Z (list Z) (t_encp wbad) t_dec t_pack t_unpack F G copy conv sl (in_disk d) (in_disk after) with
+   | Good d' => TGood (out_disk d') TNone
+   | Bad e => TBad e
+   end,
+   map (fun en => l2s (e_path en))
+       (filter (failsb Z (list Z) (t_encp wbad) t_dec t_pack t_unpack F G conv (in_disk d)) (entries Z (list Z) F sl (in_disk d))),
+   movep_hyp Z (list Z) F G sl (in_disk d)).
